@@ -14,7 +14,7 @@ EXTRA = [('cheap :- C = #sum{P,I : buy(I,P)}, S = #sum{P,I : ship(I,P)}, budget(
 
 
 def corr(rng, quick):
-    return corr_mathsimp.run(rng, 160 if quick else 2500, corpus_limit=60 if quick else None)
+    return corr_mathsimp.run(rng, 400 if quick else 2500, corpus_limit=60 if quick else None)
 
 
 def run(ctx) -> int:
